@@ -11,6 +11,7 @@ pub(crate) fn detect_format(input: &mut input::Handle) -> io::Result<Option<Form
 	// text format. Detection of MessagePack inputs is limited to collection
 	// types; see comments in the implementation for details.
 	if crate::msgpack::input_matches(input.borrow_mut())? {
+		vhit!(DETECT_MSGPACK);
 		return Ok(Some(Format::Msgpack));
 	}
 
@@ -18,6 +19,7 @@ pub(crate) fn detect_format(input: &mut input::Handle) -> io::Result<Option<Form
 	// example, a "#" comment at the start of a document could be TOML or YAML,
 	// but definitely not JSON.
 	if crate::json::input_matches(input.borrow_mut())? {
+		vhit!(DETECT_JSON);
 		return Ok(Some(Format::Json));
 	}
 
@@ -26,14 +28,17 @@ pub(crate) fn detect_format(input: &mut input::Handle) -> io::Result<Option<Form
 	// less buffering). Detection of YAML inputs is limited to collection types;
 	// see comments in the implementation for details.
 	if crate::yaml::input_matches(input.borrow_mut())? {
+		vhit!(DETECT_YAML);
 		return Ok(Some(Format::Yaml));
 	}
 
 	// Finally, TOML is the only input format that must fully buffer input
 	// before parsing.
 	if crate::toml::input_matches(input.borrow_mut())? {
+		vhit!(DETECT_TOML);
 		return Ok(Some(Format::Toml));
 	}
 
+	vhit!(DETECT_NONE);
 	Ok(None)
 }
